@@ -14,7 +14,7 @@ full-tree density restricted to the trees `graftBack rem gk y`.
 
 namespace PhyModel.PG
 open Finset BigOperators Proposal PGSpec Orders Orders.Forest
-open Moves (graftBack correctWeights subtreeGiven)
+open PhyModel.Moves (graftBack correctWeights subtreeGiven)
 
 variable {dt : Data} {c : Cfg} {σ : List ℕ} {L : List T}
 
